@@ -44,12 +44,14 @@ type c08PReq struct {
 	K      int   `json:"k"` // 0 backend answers Status (not a failure code), 1 transport error, 2 answers Status (a failure code)
 	Status int   `json:"status"`
 	Body   int   `json:"body"` // request shape: 0 no body, 1 buffered body, 2 stream body, 3 stream with empty body
+	P      int   `json:"p"`    // 0 main pool, 1 candidate pool (same circuitBreakerPolicy name)
 	Cx     int   `json:"cx"`   // request context: 0 live, 1 cancelled before, 2 cancelled while the server is contacted, 3 deadline exceeded
 }
 
 type c08PIn struct {
 	Pol   c08PPol   `json:"pol"`
 	T0    int64     `json:"t0"`
+	Pools int       `json:"pools"` // 2: a candidate pool naming the SAME circuit breaker policy is configured as well
 	Retry int       `json:"retry"` // > 0: a retry policy with that many attempts is configured alongside the breaker
 	Reqs  []c08PReq `json:"reqs"`
 }
@@ -84,6 +86,18 @@ pools:
 `
 
 const c08PYamlRetry = c08PYaml + `  retryPolicy: c08retry
+`
+
+const c08PYamlCand = `- filter:
+    headers:
+      "X-C08-Pool":
+        exact: cand
+  servers:
+  - url: http://127.0.0.2:9095
+  loadBalance:
+    policy: roundRobin
+  circuitBreakerPolicy: c08cb
+  failureCodes: [500, 503]
 `
 
 // c08PBreaker digs the breaker out of the pool's wrapper (resilience.circuitBreakerWrapper
@@ -141,6 +155,12 @@ func c08PRun(in c08PIn) (obs c08PObs) {
 	if in.Retry > 0 {
 		src = c08PYamlRetry
 	}
+	if in.Pools >= 2 {
+		src += c08PYamlCand
+		if in.Retry > 0 {
+			src += "  retryPolicy: c08retry\n"
+		}
+	}
 	if err := yaml.Unmarshal([]byte(src), &raw); err != nil {
 		panic(err)
 	}
@@ -171,7 +191,10 @@ func c08PRun(in c08PIn) (obs c08PObs) {
 		WaitDurationInOpen:               fmt.Sprintf("%dns", in.Pol.Wait),
 	}
 	px.InjectResiliencePolicy(pols)
-	breaker := c08PBreaker(px.mainPool)
+	breakers := []*libcb.CircuitBreaker{c08PBreaker(px.mainPool)}
+	for _, cp := range px.candidatePools {
+		breakers = append(breakers, c08PBreaker(cp))
+	}
 
 	saved := fnSendRequest
 	defer func() { fnSendRequest = saved }()
@@ -201,6 +224,9 @@ func c08PRun(in c08PIn) (obs c08PObs) {
 			during = dur
 			defer done()
 			req := c08PRequest(rq.Body, rctx)
+			if rq.P%len(breakers) == 1 {
+				req.Std().Header.Set("X-C08-Pool", "cand")
+			}
 			step.Stream = req.IsStream()
 			ctx := context.New(tracing.NoopSpan)
 			ctx.SetRequest(context.DefaultNamespace, req)
@@ -210,7 +236,7 @@ func c08PRun(in c08PIn) (obs c08PObs) {
 			}
 		}()
 		step.Contacted = contacted
-		st, id, total := breaker.VerifC08Peek()
+		st, id, total := breakers[rq.P%len(breakers)].VerifC08Peek()
 		step.State, step.ID, step.Total = int64(st), int64(id), int64(total)
 		obs.Reqs = append(obs.Reqs, step)
 	}
@@ -226,6 +252,8 @@ func c08PGen(r *vfRand, adv bool) c08PIn {
 	in := c08PIn{Pol: p, T0: int64(r.Intn(1_000_000_000)), Retry: r.PickInt(0, 0, 2, 3, 1)}
 	pstream := r.PickInt(0, 30, 60, 100)
 	pcx := r.PickInt(0, 0, 30, 60, 100)
+	in.Pools = r.PickInt(1, 2, 2)
+	skew := r.Bool()
 	n := r.Range(3, 30)
 	if adv {
 		n = r.Range(20, 80)
@@ -247,7 +275,14 @@ func c08PGen(r *vfRand, adv bool) c08PIn {
 		case 2:
 			q.Dt = p.MaxWait + 1
 		}
-		if r.Chance(pf, 100) {
+		pfq := pf
+		if in.Pools >= 2 {
+			q.P = r.Intn(2)
+			if skew {
+				pfq = []int{90, 3}[q.P]
+			}
+		}
+		if r.Chance(pfq, 100) {
 			if r.Bool() {
 				q.K = 1
 				q.Status = 0
